@@ -149,6 +149,14 @@ def r17_1(rep, M, rid):
     for s in fn.body[:idx]:
         if isinstance(s, ast.Assign) and isinstance(s.targets[0], ast.Name) and isinstance(s.value, ast.Constant):
             pre_env[s.targets[0].id] = s.value.value
+    # nothing is returned before the dimensionality is known
+    early = [r for s0 in fn.body[:idx] for r in ast.walk(s0) if isinstance(r, ast.Return)]
+    for r in early:
+        rep.violation(rid, f"classify: `{norm(r)[:60]}` before the dimensionality is evaluated", "this return does not depend on the dimensionality of the "
+                      "structure: e.g. a single atom in a small periodic cell bonds to its own images (primitive fcc/bcc cells are 3D, one-atom sheets 2D, "
+                      "chains 1D) and must get the class of that dimensionality", M.where(FQ, r))
+    if not early:
+        rep.ok(rid, "classify: no return precedes the evaluation of the dimensionality")
     # which variable is returned
     result_vars = {r.value.id for r in ast.walk(fn) if isinstance(r, ast.Return) and isinstance(r.value, ast.Name)}
     tracked = set(result_vars) | {dvar}
@@ -421,6 +429,122 @@ def r17_5(rep, M, rid):
                     rep.violation(rid, f"{fq.split('.')[-1]}: read of self.{x.attr}", "instance state read without being set in __init__ or "
                                   "on every path of this call: the result depends on earlier calls", M.where(fq, x))
     rep.ok(rid, "every self.<attr> read by classify / cross_validate_region is initialised in __init__ or earlier in the same call")
+    # working state of one call: attributes that __init__ only creates as None placeholders and classify fills in must be filled on
+    # *every* path before anything reads them (otherwise None, or the value of a previous call, is used)
+    placeholders = {t.attr for s in ast.walk(init) if isinstance(s, ast.Assign) and isinstance(s.value, ast.Constant) and s.value.value is None
+                    for t in s.targets if isinstance(t, ast.Attribute) and isinstance(t.value, ast.Name) and t.value.id == "self"}
+    fn = M.func(FQ)
+    fl = Flow(fn)
+    writes = {}
+    for n, d in fl.cfg.g.nodes(data=True):
+        s = d["ast"]
+        if isinstance(s, ast.Assign):
+            for t in s.targets:
+                if isinstance(t, ast.Attribute) and isinstance(t.value, ast.Name) and t.value.id == "self" and t.attr in placeholders:
+                    writes.setdefault(t.attr, []).append(n)
+
+    def reads_of(meth, seen=None):
+        """self attributes read by a method of the class, including through self.<method>() calls"""
+        seen = seen if seen is not None else set()
+        if meth in seen:
+            return set()
+        seen.add(meth)
+        q = M.find_method(CLS, meth)
+        if not q:
+            return set()
+        out = set()
+        for x in ast.walk(M.func(q)):
+            if isinstance(x, ast.Attribute) and isinstance(x.value, ast.Name) and x.value.id == "self" and isinstance(x.ctx, ast.Load):
+                if M.find_method(CLS, x.attr):
+                    out |= reads_of(x.attr, seen)
+                else:
+                    out.add(x.attr)
+        return out
+    # finite domains validated in __init__ (`if <param> not in <set of literals>: raise`): the branches of classify on such an
+    # option are evaluated per value, so complementary `== "relative"` / `== "absolute"` branches are not mistaken for a gap
+    domains = {}
+    consts = {}
+    for s2 in init.body:
+        if isinstance(s2, ast.Assign) and isinstance(s2.targets[0], ast.Name):
+            v = s2.value
+            if isinstance(v, ast.Call) and isinstance(v.func, ast.Name) and v.func.id in ("set", "frozenset", "list", "tuple") and v.args:
+                v = v.args[0]
+            if isinstance(v, (ast.Set, ast.List, ast.Tuple)) and all(isinstance(e, ast.Constant) for e in v.elts):
+                consts[s2.targets[0].id] = [e.value for e in v.elts]
+        if isinstance(s2, ast.If) and isinstance(s2.test, ast.Compare) and len(s2.test.ops) == 1 and isinstance(s2.test.ops[0], ast.NotIn) \
+                and isinstance(s2.test.left, ast.Name) and isinstance(s2.test.comparators[0], ast.Name) \
+                and s2.test.comparators[0].id in consts and any(isinstance(x, ast.Raise) for x in s2.body):
+            par = s2.test.left.id
+            for a in ast.walk(init):
+                if isinstance(a, ast.Assign) and isinstance(a.value, ast.Name) and a.value.id == par:
+                    for t in a.targets:
+                        if isinstance(t, ast.Attribute) and isinstance(t.value, ast.Name) and t.value.id == "self":
+                            domains[t.attr] = consts[s2.test.comparators[0].id]
+    reassigned = {t.attr for q2 in M.functions() if M.parent.get(q2) == CLS and not q2.endswith(".__init__") for a in ast.walk(M.func(q2))
+                  if isinstance(a, (ast.Assign, ast.AugAssign)) for t in (a.targets if isinstance(a, ast.Assign) else [a.target])
+                  if isinstance(t, ast.Attribute) and isinstance(t.value, ast.Name) and t.value.id == "self"}
+    domains = {k: v for k, v in domains.items() if k not in reassigned}
+    import itertools
+    import networkx as nx
+
+    def ev(test, env):
+        if isinstance(test, ast.Compare) and len(test.ops) == 1 and isinstance(test.ops[0], (ast.Eq, ast.NotEq)) \
+                and isinstance(test.left, ast.Attribute) and isinstance(test.left.value, ast.Name) and test.left.value.id == "self" \
+                and test.left.attr in env and isinstance(test.comparators[0], ast.Constant):
+            r = env[test.left.attr] == test.comparators[0].value
+            return r if isinstance(test.ops[0], ast.Eq) else not r
+        if isinstance(test, ast.BoolOp):
+            vals = [ev(v, env) for v in test.values]
+            if isinstance(test.op, ast.Or):
+                return True if any(v is True for v in vals) else (False if all(v is False for v in vals) else None)
+            return False if any(v is False for v in vals) else (True if all(v is True for v in vals) else None)
+        if isinstance(test, ast.UnaryOp) and isinstance(test.op, ast.Not):
+            v = ev(test.operand, env)
+            return None if v is None else (not v)
+        return None
+
+    def gap(use_node, wnodes):
+        """a configuration (of the validated options) under which a path entry -> use avoids every write, or None"""
+        keys = sorted(domains)
+        for combo in itertools.product(*[domains[k] for k in keys]) if keys else [()]:
+            env = dict(zip(keys, combo))
+            g = fl.cfg.g.copy()
+            for n2, d2 in fl.cfg.g.nodes(data=True):
+                if isinstance(d2["ast"], ast.If):
+                    b = ev(d2["ast"].test, env)
+                    if b is not None:
+                        for succ in list(g.successors(n2)):
+                            if g.edges[n2, succ].get("label") is (not b):
+                                g.remove_edge(n2, succ)
+            g.remove_nodes_from([w for w in wnodes if w not in (fl.cfg.entry, use_node)])
+            if nx.has_path(g, fl.cfg.entry, use_node):
+                return env
+        return None
+    nuse = 0
+    for attr, wnodes in sorted(writes.items()):
+        for n, d in fl.cfg.g.nodes(data=True):
+            s = d["ast"]
+            if s is None:
+                continue
+            for x in walk_own(s):
+                use = None
+                if isinstance(x, ast.Attribute) and isinstance(x.value, ast.Name) and x.value.id == "self" and isinstance(x.ctx, ast.Load):
+                    if x.attr == attr:
+                        use = f"read of self.{attr}"
+                    elif M.find_method(CLS, x.attr) and attr in reads_of(x.attr):
+                        use = f"call of self.{x.attr}(), which reads self.{attr}"
+                if use is None:
+                    continue
+                nuse += 1
+                bad = gap(n, wnodes)
+                if bad is None:
+                    rep.ok(rid, f"classify: self.{attr} is assigned on every path before the {use} (for every value of {sorted(domains)})")
+                else:
+                    cfgtxt = ", ".join(f"{k}={v!r}" for k, v in sorted(bad.items())) or "some path"
+                    rep.violation(rid, f"classify: self.{attr} before the {use}", f"self.{attr} is a None placeholder of __init__ that classify does not assign "
+                                  f"when {cfgtxt}: the consumer gets None - TypeError instead of a class - or, on a reused classifier, the value computed for "
+                                  "the previous structure", M.where(FQ, x))
+    rep.count("placeholder_state_uses", nuse)
 
 
 # ----------------------------------------------------------------------------- configuration is never mutated in place
@@ -618,6 +742,7 @@ def run(rep, ctx):
     with rep.guard("R17.7"):
         from .. import handlers
         handlers.check(rep, M, "R17.7", M.reachable([FQ]))
+        handlers.check_raises(rep, M, "R17.7", M.reachable([FQ]), FQ.split(".")[-1])
     rep.rule("R17.8", "the geometry helpers classify rests on (get_dimensionality, get_radii, get_distances, displacement-tensor wrapper, clustering) satisfy their own rules (shared with C09/C10/C19)")
     with rep.guard("R17.8"):
         from . import shared as _sh
